@@ -15,7 +15,6 @@ import (
 	"regexp"
 	"sort"
 	"strings"
-	"time"
 
 	"github.com/wader/fq/internal/verif/core"
 	"github.com/wader/gojq"
@@ -46,7 +45,9 @@ func run(r *core.Run) {
 	r.Rule("a (program text) is non-trivial when the reference engine compiles it and, on at least one pool input, yields at least one output value (not only an immediate error or empty); evaluations = (program, input) pairs compared between the two engines")
 	r.Assume("reference = github.com/wader/gojq at the version of /repo/go.mod, Parse/Compile/Run with no fq code; debug/0 and stderr/0 (left to the embedder by the library) are the pass-through gojq's own CLI installs")
 	r.Assume("error messages are not compared, only the output index at which the stream fails")
-	r.Assume("L1 atom and operator sets shrink with program size (tier table in coverage.extra); each size is enumerated completely over its tier")
+	r.Assume("L1 atom and operator sets shrink with program size (l1_tiers in coverage); each size is enumerated completely over its set; the grammar has no recursion and no unbounded generator")
+	r.Assume("a program on which the reference engine itself crashes (Go panic inside gojq) has no reference behaviour and gets no verdict (counted)")
+	r.Assume("differences are classified by test, never by pattern: a rewritten program (catch bodies fed a constant instead of the message text / fromjson|tovalue / second split argument bound first / native split inside a path expression) must agree completely between the engines for the difference to count as that class; message-only differences are not findings, the other classes are known findings")
 	if os.Getenv("VERIF_STEP_LIMIT") == "" {
 		// a batch is ~1500 evaluations; on a loaded machine 30 s is not a livelock
 		os.Setenv("VERIF_STEP_LIMIT", "180s")
@@ -84,6 +85,17 @@ func pool(texts []string) []any {
 		vs[i] = mustJSON(t)
 	}
 	return vs
+}
+
+// newWatchedFQ is an fq engine whose every interpreter call is a watchdog step: a
+// call (one batch compile+run, or one program) normally takes milliseconds.
+func newWatchedFQ(r *core.Run) *fqEngine {
+	e := newFQ()
+	e.step = func(what, prog string) func() {
+		r.StepBegin("fq-does-not-return", "fq evaluating "+what+" `"+prog+"`", Case{Section: "L1", Program: prog, Input: "null"})
+		return r.StepEnd
+	}
+	return e
 }
 
 type differ struct {
@@ -220,8 +232,6 @@ func (d *differ) compareBatch(progs []string, inputs []any, validate bool) {
 		refs []Obs
 	}
 	var ok []compiled
-	t0 := time.Now()
-	defer func() { r.Count("ms_total_in_compare", time.Since(t0).Milliseconds()) }()
 	for _, p := range progs {
 		code, err := refCompile(p)
 		if err != nil {
@@ -273,12 +283,7 @@ func (d *differ) compareBatch(progs []string, inputs []any, validate bool) {
 	for i, c := range ok {
 		texts[i] = c.text
 	}
-	r.Count("ms_reference", time.Since(t0).Milliseconds())
-	t1 := time.Now()
-	r.StepBegin(d.section+":batch", "fq evaluating a batch starting with "+texts[0], Case{Section: d.section, Program: texts[0], Input: "null"})
 	obs, unb := d.fq.runBatchRobust(texts, inputs)
-	r.StepEnd()
-	r.Count("ms_fq_batches", time.Since(t1).Milliseconds())
 	if len(unb) > 0 {
 		// programs that broke their batch (a Go panic, an uncatchable error, a compile
 		// error in fq only) were isolated by bisection and evaluated on their own
@@ -296,8 +301,6 @@ func (d *differ) compareBatch(progs []string, inputs []any, validate bool) {
 		}
 	}
 	if len(vars) > 0 {
-		t2 := time.Now()
-		defer func() { r.Count("ms_classification_and_confirmation", time.Since(t2).Milliseconds()) }()
 		r.Count("second_stage_batches", 1)
 		texts := make([]string, len(vars))
 		for k := range vars {
@@ -398,7 +401,7 @@ func (d *differ) compareBatch(progs []string, inputs []any, validate bool) {
 func l1(r *core.Run) {
 	maxK := core.Pick(r, 2, 3)
 	inputs := pool(l1PoolText)
-	d := &differ{r: r, fq: newFQ(), section: "L1"}
+	d := &differ{r: r, fq: newWatchedFQ(r), section: "L1"}
 	const batchSize = 96
 	var batchIdx int64
 	tiers := map[string]any{}
